@@ -78,6 +78,8 @@ impl<T: AtomicInt> ConcurrentUnionFind<T> {
             T::as_usize(max_elt) + 1,
             |buf| {
                 let mut l = Self::find_impl(buf, l);
+                #[cfg(egglog_verif)]
+                egglog_concurrency::verif::point(35);
                 let mut r = Self::find_impl(buf, r);
                 while l != r {
                     let next = buf[T::as_usize(l)].load();
